@@ -1,8 +1,28 @@
-//! C09 runner (stub). Replace the body; keep the signature `pub fn run(args: &[String])`.
-#[allow(unused_imports)]
-use crate::common::{catch, each_line, opt_i64};
+//! C09: the CLI modes of `incan fmt`. `vharness run c09 <fmt|check|diff> <path>` calls the REAL
+//! `incan::cli::commands::format_files(path, check, diff)` (the function `incan fmt` dispatches to,
+//! src/cli/mod.rs) in this process and prints, after whatever the function itself printed, one line
+//! `@@C09 <ok|err> <exit code> <message>`.  File contents are hashed by the Python side before/after.
+use crate::common::catch;
+use std::io::Write;
 
-pub fn run(_args: &[String]) {
-    eprintln!("c09: runner not implemented");
-    std::process::exit(2);
+pub fn run(args: &[String]) {
+    let mode = args.first().map(|s| s.as_str()).unwrap_or("");
+    let path = args.get(1).cloned().unwrap_or_default();
+    let (check, diff) = match mode {
+        "fmt" => (false, false),
+        "check" => (true, false),
+        "diff" => (false, true),
+        "checkdiff" => (true, true),
+        _ => {
+            eprintln!("c09: mode must be fmt|check|diff|checkdiff");
+            std::process::exit(2);
+        }
+    };
+    let r = catch(|| incan::cli::commands::format_files(&path, check, diff));
+    let _ = std::io::stdout().flush();
+    match r {
+        Ok(Ok(code)) => println!("@@C09 ok {} ", code.0),
+        Ok(Err(e)) => println!("@@C09 err {} {}", e.exit_code.0, e.message.replace('\n', "\\n")),
+        Err(p) => println!("@@C09 panic 101 {}", p.replace('\n', "\\n")),
+    }
 }
